@@ -46,7 +46,7 @@ FCasesOK(e, V0, shares) ==
   /\ \A n \in 1..Len(e.cases) : FCaseOK(e, e.cases[n], V0, shares)
 
 FDealOK(e) ==
-  /\ ~e.ok => (NCols(e.M) = 1 /\ EverySingleQualified(e.pol))
+  /\ ~e.ok => (NCols(e.M) = 1 /\ (EverySingleQualified(e.pol) \/ ~SomeSetQualified(e.pol)))
   /\ e.ok => /\ IsVec(e.r, NCols(e.M)) /\ e.r[1] = e.secret
              /\ e.V = FeldmanVV(e.r)                              \* V = [r]G
              /\ SharesAre(e, e.shares, e.r)
